@@ -75,6 +75,7 @@ class Reporter:
         self.ctx, self.label_of = ctx, label_of
         self.by_sig = {}
         self.fatal = 0          # divergences other than a stale token map (those end a chain of refreshes)
+        self.v2, self.same_addr = False, ()
 
     def __call__(self, st, d, sig, history):
         n = self.by_sig[sig] = self.by_sig.get(sig, 0) + 1
@@ -85,6 +86,7 @@ class Reporter:
                 "%s: after Refresh the real metadata differs from the specification: %s (state before: %s; snapshot: %s)"
                 % (self.label_of(), d, dict(st["prev"]), dict(st["act"]["snap"])),
                 replay={"peers": sorted(h for h in st["added"] if h != 0), "history": history,
+                        "peers_v2": bool(self.v2), "same_addr": sorted(self.same_addr) if self.v2 else [],
                         "expected": {k: st[k] for k in ("known", "prev", "added", "removed", "moves", "ring", "rebuilt")},
                         "diff": d},
                 signature=sig)
@@ -173,6 +175,7 @@ def run(ctx):
         timing["tlc:" + name] = round(time.time() - t0, 1)
         t0 = time.time()
         for v2 in {"v1": (False,), "both": (False, True), "v2": (True,)}[tables]:
+            rep.v2, rep.same_addr = v2, consts["SameAddr"]
             rp = rc.RefreshReplayer(consts["Peers"], rep, v2=v2, same_addr=consts["SameAddr"])
             cov, tot = rc.cover_refresh_edges(states, rp, ctx.rng, stop=rep.too_many)
             total_edges += tot
@@ -239,6 +242,7 @@ def run(ctx):
         seq = sorted(by_sid[sid], key=lambda s: s["l"])
         # even scripts through system.peers_v2 (where the last peer sits behind the control node's address, own native
         # port), odd ones through system.peers (no port column: every host has its own address)
+        rep.v2, rep.same_addr = (sid % 2 == 0), sconsts["SameAddr"]
         rp = rc.RefreshReplayer(sconsts["Peers"], rep, v2=(sid % 2 == 0), same_addr=sconsts["SameAddr"])
         rp.fresh()
         good = True
@@ -315,7 +319,7 @@ def _fix(obj):
 def replay(ctx, obj):
     from harness.replay import control as rc
     obj = _fix(obj)
-    h = rc.RefreshHarness(obj["peers"])
+    h = rc.RefreshHarness(obj["peers"], v2=obj.get("peers_v2", False), same_addr=obj.get("same_addr", ()))
     proj = None
     for act in obj["history"]:
         proj = h.refresh(act)
